@@ -70,11 +70,11 @@ fn gen_history(seed: u64) -> (History, super::super::chain::ChainParams, super::
     let mut acts = vec![Act::SetAll(pick_regs(&mut rng))];
     for _ in 0..rng.range(2, 6) {
         acts.push(Act::Rounds(rng.range(1, 4)));
-        let next = match rng.below(8) {
+        let next = match rng.below(10) {
             0 | 1 | 2 => Act::Grow(rng.range(1, 6)),
             3 => Act::SetAll(pick_regs(&mut rng)),
             4 => Act::Restart,
-            5 => Act::Fork { depth_back: rng.range(1, 3), extra: rng.range(1, 3), salt: rng.next_u64() | 1 },
+            5 | 8 | 9 => Act::Fork { depth_back: rng.range(1, 3), extra: rng.range(1, 3), salt: rng.next_u64() | 1 },
             6 => {
                 let mut r = pick_regs(&mut rng);
                 r.truncate(1);
@@ -104,6 +104,9 @@ struct RunResult {
     /// index of the act during which the crash happened (None: while opening the store)
     crash_act: Option<usize>,
     mismatch: Option<String>,
+    /// at the point of non-convergence the persisted or in-memory matched blocks hold a hash that is not on the network's
+    /// current chain (a record of the abandoned branch that survived: the mechanism of KF28 / KF37)
+    stale_matched: bool,
     panic: Option<String>,
     sites: Vec<(&'static str, String)>,
     trace: Vec<String>,
@@ -171,8 +174,9 @@ fn do_act(w: &mut World, net: &mut HonestNet, a: &Act, hook: &mut ForkWatch) -> 
             let stored = w.c().storage.get_last_n_headers();
             let main_tip = w.chains[net.main].tip();
             let cands: Vec<u64> = stored.iter().map(|(n, _)| *n).filter(|n| *n >= 1 && *n < main_tip).collect();
-            if cands.is_empty() || w.c().storage.get_min_filtered_block_number() > *cands.iter().min().unwrap() {
-                // (a fork below the filtered height runs into the known undetected-shallow-reorg finding of C04)
+            // (forks below the filtered height - the rollback then has index entries to delete - were left out while the undetected
+            // shallow reorg, KF25, was open; since fix 991948d they are part of the histories)
+            if cands.is_empty() {
                 net.grow(w, 1);
                 return Ok(());
             }
@@ -204,7 +208,7 @@ fn run_history(h: &History, params: &super::super::chain::ChainParams, ccfg: &su
             std::panic::panic_any(CrashHere(k, site));
         }
     }));
-    let mut res = RunResult { writes: 0, crashed: None, restart_panic: None, converged: false, rebased_start: false, banned: None, crash_act: None, mismatch: None, panic: None, sites: vec![], trace: vec![] };
+    let mut res = RunResult { writes: 0, crashed: None, restart_panic: None, converged: false, rebased_start: false, banned: None, crash_act: None, mismatch: None, stale_matched: false, panic: None, sites: vec![], trace: vec![] };
     let main = Chain::generate(params.clone(), h.len);
     let mut w = World::new(main, ccfg.clone(), h.seed, now);
     let mut net = HonestNet::new(0);
@@ -258,6 +262,12 @@ fn run_history(h: &History, params: &super::super::chain::ChainParams, ccfg: &su
             }
             if res.restart_panic.is_some() {
                 break;
+            }
+            if std::env::var("VERIF_DEBUG").is_ok() {
+                let c = w.c();
+                w.log_event(format!("RESTARTED after crash: min_filtered {} earliest {:?} latest {:?} scripts {:?} tip {}", c.storage.get_min_filtered_block_number(),
+                    c.storage.get_earliest_matched_blocks().map(|(s, n, v)| (s, n, v.len())), c.storage.get_latest_matched_blocks().map(|(s, n, v)| (s, n, v.len())),
+                    c.storage.get_filter_scripts().iter().map(|s| s.block_number).collect::<Vec<_>>(), c.storage.get_tip_header().raw().number()));
             }
             net.grow_silent(&mut w, 1);
             w.connect_all();
@@ -365,6 +375,9 @@ fn run_history(h: &History, params: &super::super::chain::ChainParams, ccfg: &su
                 }
             }
             if !cmp.ok() {
+                if std::env::var("VERIF_DEBUG").is_ok() {
+                    res.trace = w.trace_vec();
+                }
                 res.mismatch = Some(format!(
                     "phantom {} missing_cells {} bogus_history {} missing_history {} capacity {}: first {:?} {:?} {:?}",
                     cmp.phantom_cells.len(), cmp.missing_cells.len(), cmp.bogus_history.len(), cmp.missing_history.len(), cmp.capacity_mismatch.len(),
@@ -375,6 +388,18 @@ fn run_history(h: &History, params: &super::super::chain::ChainParams, ccfg: &su
     } else {
         res.mismatch = Some(format!("not converged within {} rounds: min_filtered {} chain tip {} pending {} bans {}", R_RECOVER, w.c().storage.get_min_filtered_block_number(), w.chains[main].tip(), w.matched_pending(), w.bans.len()));
         res.trace = w.trace_vec().into_iter().rev().take(30).collect();
+        let chain = &w.chains[main];
+        let mut hashes: Vec<ckb_types::packed::Byte32> = vec![];
+        if let Some((_, _, v)) = w.c().storage.get_earliest_matched_blocks() {
+            hashes.extend(v.into_iter().map(|(h, _)| h));
+        }
+        if let Some((_, _, v)) = w.c().storage.get_latest_matched_blocks() {
+            hashes.extend(v.into_iter().map(|(h, _)| h));
+        }
+        if let Ok(m) = w.c().peers.matched_blocks().read() {
+            hashes.extend(m.keys().map(|k| k.pack()));
+        }
+        res.stale_matched = hashes.iter().any(|h| chain.num_of(h).is_none());
     }
     res.rebased_start = watch.rebased_start;
     res.banned = w.bans.first().map(|(_, r)| r.split(':').next().unwrap_or("").to_string());
@@ -477,6 +502,8 @@ pub fn run(cfg: &RunCfg, out: &Out) {
                     "fork-in-history+script-reregistered-across-fork".to_string()
                 } else if let Some(code) = &r.banned {
                     format!("fork-in-history+honest-peer-banned:{}", code)
+                } else if r.stale_matched {
+                    "fork-in-history+matched-record-of-abandoned-branch".to_string()
                 } else {
                     "fork-in-history".to_string()
                 }
